@@ -23,7 +23,13 @@ type FuncResult struct {
 	Err         string
 	Loops       int
 	Clauses     int
+	Plan        *ReplayPlan
 }
+
+// afterRequires, when set (counterexample replay), is called once the
+// parameters, ghosts, lets, package invariants and preconditions of a function
+// have been encoded; verifyFunction then stops without encoding the body.
+var afterRequires func(e *Enc, fr *Frame, entry *State, mkctx func(*State, []Val, string) *SpecCtx)
 
 func keys(m map[string]bool) []string {
 	var out []string
@@ -115,10 +121,17 @@ func verifyFunction(l *Loaded, cs *Contracts, fn *ssa.Function, con *Contract) (
 		e.B.assume(e.compileBool(mkctx(entry, nil, "requires of "+res.Name), rq.Expr))
 		res.Clauses++
 	}
+	if afterRequires != nil {
+		afterRequires(e, fr, entry, mkctx)
+		return res
+	}
 	// vacuity guard: the preconditions are satisfiable
 	cov := e.addObl(fr, "cover-requires", "false", "preconditions are satisfiable", fn.Pos(), nil)
 	cov.Cover = true
 
+	for _, ap := range con.Appends {
+		e.note("spare capacity of %s assumed to be owned by that place alone (appends)", ap.Src)
+	}
 	if con.AllocLimit != nil {
 		e.allocLimit = e.compile(mkctx(entry, nil, "alloc_limit of "+res.Name), con.AllocLimit).T
 	}
@@ -155,8 +168,11 @@ func verifyFunction(l *Loaded, cs *Contracts, fn *ssa.Function, con *Contract) (
 	if !con.Extern {
 		e.frameObligations(fr, con, mkctx, entry, out, returns)
 	}
+	// concrete-replay plan: which terms of the entry state to read from a model
+	res.Plan = e.buildReplayPlan(fn, fr, entry, con)
+	model = append(model, res.Plan.vars...)
 	for _, o := range e.obls {
-		if o.Model == nil {
+		if o.Model == nil || o.Kind == "ensures" {
 			o.Model = model
 		}
 	}
